@@ -1,15 +1,16 @@
 #!/bin/bash
 # seedrun.sh <seed-dir> <ID> [tier]   apply a seeded change to /repo, run the check, undo it.
 sd="$(realpath "$1")"; id="$2"; tier="${3:-quick}"
-cd /verif
-git -C /repo diff --quiet || { echo "/repo has uncommitted changes"; exit 2; }
-git -C /repo apply "$sd/patch.diff" 2>/dev/null || git -C /repo apply -3 "$sd/patch.diff" 2>/dev/null || { git -C /repo reset -q; git -C /repo checkout -q -- .; echo "patch does not apply to /repo (rebase it)"; exit 2; }
-git -C /repo reset -q
-cp evidence/$id.json /tmp/ev-$id.bak 2>/dev/null
-./vcheck $id --tier $tier > /tmp/seedrun-$id.log 2>&1; rc=$?
-git -C /repo reset -q; git -C /repo checkout -q -- .
-cp /tmp/ev-$id.bak evidence/$id.json 2>/dev/null
-grep -E "^(VIOLATION|KNOWN|INFRA|$id )" /tmp/seedrun-$id.log | cut -c1-300
-grep -A3 "^VIOLATION" /tmp/seedrun-$id.log | grep -E "signature|observed|disagrees|pattern" | cut -c1-400 | head -12
+. "${VERIF_ROOT:-/verif}/env.sh"
+cd "$VERIF_ROOT"
+git -C "$VERIF_REPO" diff --quiet || { echo "$VERIF_REPO has uncommitted changes"; exit 2; }
+git -C "$VERIF_REPO" apply "$sd/patch.diff" 2>/dev/null || git -C "$VERIF_REPO" apply -3 "$sd/patch.diff" 2>/dev/null || { git -C "$VERIF_REPO" reset -q; git -C "$VERIF_REPO" checkout -q -- .; echo "patch does not apply to /repo (rebase it)"; exit 2; }
+git -C "$VERIF_REPO" reset -q
+cp evidence/$id.json work/ev-$id.bak 2>/dev/null
+./vcheck $id --tier $tier > work/seedrun-$id.log 2>&1; rc=$?
+git -C "$VERIF_REPO" reset -q; git -C "$VERIF_REPO" checkout -q -- .
+cp work/ev-$id.bak evidence/$id.json 2>/dev/null
+grep -E "^(VIOLATION|KNOWN|INFRA|$id )" work/seedrun-$id.log | cut -c1-300
+grep -A3 "^VIOLATION" work/seedrun-$id.log | grep -E "signature|observed|disagrees|pattern" | cut -c1-400 | head -12
 rm -rf replays/$id
 echo "exit=$rc"
